@@ -510,6 +510,17 @@ def judge_hist(ctx, case, R, M):
         # one over either (the conversion fails: it has no Jacobian, or its `jac_fn` raises)
         NOMAT = "no matrix"
         s_ = (sv.get("ok") if sv.get("ok") is not None else NOMAT) if "ok" in sv else NOMAT
+        # the integrator has a Jacobian at all only if the model converted when the integrator was last built
+        # (construction / clear_results / update_variable); after a fall-back it runs without one until it is built again,
+        # whatever the model has become since (allowed: "falls back with a warning rather than using wrong equations")
+        built_at = max([j for j in range(i) if case["hist"][j][0] == "reinit"], default=None)
+        content_then = case["content"] if built_at is None else hist_contents(case)[built_at]
+        if should_convert(content_then) != "ok":
+            s_ = NOMAT
+            ctx.hist["hist_call_without_jacobian_after_fallback"] = ctx.hist.get("hist_call_without_jacobian_after_fallback", 0) + 1
+            if "raised" in ro or ro.get("ok") is not None:
+                ctx.violation(dict(sub, upto=i), ro, "history: the integrator has a Jacobian although the model did not convert when it was built")
+                return
         if isinstance(mv, dict) and "raised" in mv:
             m_ = NOMAT
         else:
